@@ -5,12 +5,12 @@ CONSTANTS
   Slots = {"blocks", "sections", "arrays", "frames", "tags", "mtags", "groups", "sources", "props", "features"}
   LinkSlotsOn = {"refs", "esources", "garrays", "gframes", "gtags", "gmtags"}
   OneSlotsOn = {"metadata", "positions", "extents", "data", "link"}
-  Acts = {"Create", "CreateBad", "Delete", "DeleteAbsent", "Link", "One", "Foreign", "Attr", "Type", "Def", "Dims", "Flush", "Close", "Open"}
+  Acts = {"Create", "CreateBad", "Delete", "DeleteAbsent", "Link", "Links", "One", "Foreign", "Attr", "Type", "Def", "Dims", "Flush", "Close", "Open"}
   MaxLife = 3
   MaxDims = 2
   MaxSteps = 0
   MaxGen = 0
-  EmitActs = {"Create", "CreateBad", "Delete", "DeleteAbsent", "AddLink", "RemoveLink", "SetOne", "SetAttr", "SetType", "SetDef", "AppendDim", "DeleteDims", "Flush", "Close", "Crash", "Open"}
+  EmitActs = {"Create", "CreateBad", "Delete", "DeleteAbsent", "AddLink", "RemoveLink", "SetLinks", "SetOne", "SetAttr", "SetType", "SetDef", "AppendDim", "DeleteDims", "Flush", "Close", "Crash", "Open"}
   EmitRes = "any"
   EmitWhen = "always"
 INVARIANTS TypeOK NamesUniqueInv OrderInv NoDanglingInv EidsFresh SearchEqualsBruteForce BreadthFirst BackRefsEqualBruteForce
